@@ -892,6 +892,17 @@ theorem C20_pw_depth_irrelevant (base : Base) (depth : Nat) (cs : List Call) :
   have : (run base (fresh depth) cs).seen = (run base (fresh 0) cs).seen := by simp [run_seen, fresh]
   exact ⟨this, by rw [this]⟩
 
+/-- Over `net/http`'s own writer (a `Flusher` and `Hijacker`) nothing is filtered at all: what goes on the wire through a nest of
+any depth is what the handler's calls put there when made on the server's writer directly. -/
+theorem C20_pw_wire_exact (depth : Nat) (cs : List Call) :
+    (run ⟨true, true⟩ (fresh depth) cs).seen = cs ∧ wire (run ⟨true, true⟩ (fresh depth) cs).seen = wire cs := by
+  have h : (run ⟨true, true⟩ (fresh depth) cs).seen = cs := by
+    rw [run_seen]
+    simp only [fresh, List.nil_append]
+    apply List.filter_eq_self.mpr
+    intro c _; cases c <;> rfl
+  exact ⟨h, by rw [h]⟩
+
 /-- **What a ProxyWriter records.**  After any calls, every ProxyWriter of a fresh nest answers `StatusCode()` with the code of
 the handler's *last* `WriteHeader` call (200 when there was none, or when it was 0) and `GetLength()` with the total number of
 bytes passed to `Write`. -/
